@@ -364,9 +364,10 @@ theorem run_DE : ∀ (ops : List Op) (s s' : St), run s ops = .ok s' → DeadEmp
 
 theorem DE_init : DeadEmpty St.init := by
   intro d hd hl
-  unfold St.init at hd
-  simp at hd
-  rcases hd with e | e <;> (rw [e] at hl; cases hl)
+  have all : St.init.heap.all (fun c => c.live) = true := by decide
+  have := List.all_eq_true.mp all d hd
+  rw [this] at hl
+  cases hl
 
 /-- the oracle's way of counting holders (items of existing containers only) and the proofs' way (all cells) agree -/
 theorem holders_eq_H (s : St) (de : DeadEmpty s) (c : Nat) : holders s c = H s c := by
